@@ -162,6 +162,11 @@ func (c19) Generate(env *kernel.Env, r *kernel.Rand, index int) any {
 		}
 		p.Faults = append(p.Faults, f)
 	}
+	if r.Chance(1, 40) && len(p.Stream) > 0 {
+		// a flood: one declaration requested hundreds of times (a shared helper
+		// asked for by every field), around the sizes where small counters wrap
+		p.Faults = append(p.Faults, fault{Kind: "flood", A: r.Intn(len(p.Stream)), B: kernel.Pick(r, []int{254, 255, 256, 257, 300, 511, 512, 1000, 65535, 65536, 65537})})
+	}
 	return p
 }
 
@@ -256,6 +261,18 @@ func apply(stream []decl, f fault, fired func(string)) []decl {
 		at := f.B % (n + 1)
 		out = append(out[:at:at], append([]decl{src}, stream[at:]...)...)
 		fired("duplicate")
+	case "flood":
+		if n < 1 {
+			return out
+		}
+		src := stream[f.A%n]
+		for i := 0; i < f.B; i++ {
+			out = append(out, src)
+		}
+		// spread the copies: rotate by a third
+		k := len(out) / 3
+		out = append(append([]decl(nil), out[k:]...), out[:k]...)
+		fired("flood")
 	case "rotate":
 		if n < 2 {
 			return out
@@ -280,7 +297,11 @@ func toReal(stream []decl) []generator.Declaration {
 
 func ids(stream []decl) string {
 	var b strings.Builder
-	for _, d := range stream {
+	for i, d := range stream {
+		if i >= 40 {
+			fmt.Fprintf(&b, "... (%d declarations)", len(stream))
+			break
+		}
 		if d.Prio {
 			b.WriteByte('!')
 		}
